@@ -9,6 +9,7 @@
 //	T4 range over a map    -> range over simrt.MapOrder (sorted, tape-permuted keys)
 //	T5 select (>=2 comm cases) -> polled in simrt.SelectOrder, then blocking
 //	T6 time.AfterFunc      -> simrt.AfterFunc
+//	T9 time.NewTimer/NewTicker/After, (*Timer).Reset, (*Ticker).Reset -> simrt.* (unique firing instants)
 //	T7 os.* / leveldb.OpenFile -> simos / simldb (listed files only)
 //	T8 listed package-level variables -> node-local accessors (defined in hook files)
 package main
@@ -304,8 +305,12 @@ func (in *instr) run() bool {
 						return false
 					}
 				case "time":
-					if x.Sel.Name == "AfterFunc" {
-						c.Replace(sel("simrt", "AfterFunc"))
+					switch x.Sel.Name {
+					case "AfterFunc", "NewTimer", "NewTicker", "After":
+						// T6: AfterFunc callbacks become tagged tasks; T9: timers get unique
+						// firing instants (the runtime breaks ties between timers that are due at the
+						// same instant by channel address, which is not reproducible)
+						c.Replace(sel("simrt", x.Sel.Name))
 						in.needSimrt, in.changed = true, true
 						return false
 					}
@@ -314,6 +319,22 @@ func (in *instr) run() bool {
 						c.Replace(sel("simldb", x.Sel.Name))
 						in.needSimldb, in.changed = true, true
 						return false
+					}
+				}
+			}
+		case *ast.CallExpr:
+			// T9: t.Reset(d) on *time.Timer / *time.Ticker -> simrt.ResetTimer(t, d) / simrt.ResetTicker(t, d)
+			if se, ok := x.Fun.(*ast.SelectorExpr); ok && in.full && se.Sel.Name == "Reset" && len(x.Args) == 1 {
+				if tv := in.pkg.TypesInfo.TypeOf(se.X); tv != nil {
+					switch strings.TrimPrefix(tv.String(), "*") {
+					case "time.Timer":
+						x.Fun = sel("simrt", "ResetTimer")
+						x.Args = append([]ast.Expr{se.X}, x.Args...)
+						in.needSimrt, in.changed = true, true
+					case "time.Ticker":
+						x.Fun = sel("simrt", "ResetTicker")
+						x.Args = append([]ast.Expr{se.X}, x.Args...)
+						in.needSimrt, in.changed = true, true
 					}
 				}
 			}
